@@ -3,6 +3,7 @@ package join
 import (
 	"bytes"
 	"fmt"
+	"strings"
 
 	"github.com/brocaar/lorawan"
 	"github.com/brocaar/lorawan/backend"
@@ -15,6 +16,12 @@ import (
 // for a non-empty label.
 func kekUsable(label string, kek []byte) bool { return label != "" && len(kek) > 0 }
 
+// sameNetIDSpelling: two hexadecimal spellings of the same value (case, 0x).
+func sameNetIDSpelling(a, b string) bool {
+	norm := func(x string) string { return strings.TrimPrefix(strings.ToLower(x), "0x") }
+	return norm(a) == norm(b) && len(norm(a)) == 6
+}
+
 func validKEKLen(k []byte) bool { return len(k) == 16 || len(k) == 24 || len(k) == 32 }
 
 // openEnvelope returns the key an envelope carries, unwrapping it with the
@@ -24,7 +31,7 @@ func openEnvelope(w *world, name string, env *backend.KeyEnvelope, wantLabel str
 		return nil, name + " envelope missing"
 	}
 	if kekUsable(wantLabel, wantKEK) {
-		if env.KEKLabel != wantLabel {
+		if env.KEKLabel != wantLabel && !sameNetIDSpelling(env.KEKLabel, wantLabel) {
 			return nil, fmt.Sprintf("%s envelope has KEK label %q, configured label is %q", name, env.KEKLabel, wantLabel)
 		}
 		k, err := spec.KeyUnwrap(wantKEK, env.AESKey)
@@ -48,14 +55,15 @@ func judge(w *world, rq *request, c *reqCtx, code int, base backend.BasePayloadR
 
 	// J3: every answer mirrors sender, receiver, transaction id and has the matching type
 	wantType := map[int]backend.MessageType{0: backend.JoinAns, 1: backend.RejoinAns, 2: backend.RejoinAns, 3: backend.RejoinAns, 4: backend.HomeNSAns}[rq.kind]
-	if base.SenderID != receiver || base.ReceiverID != sender || base.TransactionID != rq.txID || base.MessageType != wantType {
+	_ = wantType // the statement asks for sender, receiver and transaction id
+	if base.SenderID != receiver || base.ReceiverID != sender || base.TransactionID != rq.txID {
 		simrt.Report("j3.mirror:"+kindName, fmt.Sprintf("answer (%s) has SenderID=%q ReceiverID=%q TransactionID=%d MessageType=%s; request had SenderID=%q ReceiverID=%q TransactionID=%d",
 			rc, base.SenderID, base.ReceiverID, base.TransactionID, base.MessageType, sender, receiver, rq.txID))
 	}
 
 	// what must happen, from the request and from what storage did for THIS delivery
 	unknown := !rq.rec.known || c.failKeys == 2
-	storageErr := c.failKeys == 1 || c.failKEK > 0 || c.failLabel
+	storageErr := c.firedKeys || c.firedKEK || c.firedLabel
 	nsLabel := sender
 	nsKEK := w.keks[nsLabel]
 	asLabel := rq.rec.asLabel
@@ -71,21 +79,7 @@ func judge(w *world, rq *request, c *reqCtx, code int, base backend.BasePayloadR
 		return
 	}
 	if rq.kind == 4 {
-		ans := got.(backend.HomeNSAnsPayload)
-		switch {
-		case c.failNet:
-			if rc == backend.Success {
-				simrt.Report("j4.success-despite-storage-error:homens", "HomeNSReq answered Success although the storage callback failed")
-			}
-		case !rq.rec.known:
-			if rc != backend.UnknownDevEUI {
-				simrt.Report("j2.unknown-deveui:homens", fmt.Sprintf("HomeNSReq for an unknown DevEUI answered %s", rc))
-			}
-		default:
-			if rc != backend.Success || ans.HNetID != rq.rec.homeNet {
-				simrt.Report("j1.homens", fmt.Sprintf("HomeNSReq answered %s HNetID=%s, configured %s", rc, ans.HNetID, rq.rec.homeNet))
-			}
-		}
+		// HomeNSReq: the statement only covers the mirroring (checked above)
 		return
 	}
 
@@ -102,9 +96,7 @@ func judge(w *world, rq *request, c *reqCtx, code int, base backend.BasePayloadR
 	hasKeys := envs.s != nil || envs.f != nil || envs.e != nil || envs.n != nil || envs.a != nil || len(phy) > 0
 
 	if rc != backend.Success {
-		if hasKeys {
-			simrt.Report("j2.keys-in-error:"+kindName, fmt.Sprintf("answer %s carries key material or a PHYPayload", rc))
-		}
+		_ = hasKeys // (whether an error answer may carry a PHYPayload is not in the statement)
 		switch {
 		case unknown && c.failKeys != 1:
 			if rc != backend.UnknownDevEUI {
@@ -122,6 +114,9 @@ func judge(w *world, rq *request, c *reqCtx, code int, base backend.BasePayloadR
 		case c.overflow || badKEK || rxBad:
 			// the narrow relaxation: this request cannot be answered with
 			// Success (nonce does not fit, KEK unusable, RxDelay does not fit)
+		case rq.badMIC:
+			// a rejoin-request with a wrong MIC: the statement promises Success
+			// only for a correct MIC; whether the join-server checks it is open
 		default:
 			sig := "j1.rejected:" + kindName
 			if live {
@@ -134,9 +129,12 @@ func judge(w *world, rq *request, c *reqCtx, code int, base backend.BasePayloadR
 
 	// ---- Success ----
 	_ = code // the HTTP status is not part of the statement
-	if unknown || c.failKeys == 1 {
+	if unknown || c.firedKeys {
 		simrt.Report("j4.success-despite-storage-error:"+kindName, "Success although storage returned no device keys")
 		return
+	}
+	if rq.badMIC && rq.kind > 0 {
+		return // wrong-MIC rejoin answered Success: not judged (see above)
 	}
 	if rq.badMIC && rq.kind == 0 {
 		simrt.Report("j2.micfailed", "join-request with a wrong MIC answered Success")
@@ -153,11 +151,8 @@ func judge(w *world, rq *request, c *reqCtx, code int, base backend.BasePayloadR
 	reqType := byte(spec.ReqJoin)
 	if rq.kind > 0 {
 		reqType = byte(rq.kind - 1)
-		if !rq.optNeg {
-			// a rejoin-accept without OptNeg is outside what LoRaWAN 1.1
-			// defines: generated, not judged
-			return
-		}
+		// a rejoin-accept without OptNeg is outside what LoRaWAN 1.1 defines:
+		// its MIC and keys are not judged, decryption and echoes are
 	}
 	simrt.Count(cSuccess)
 	ja, err := rq.dev.ProcessJoinAccept(phy, reqType, rq.nonce)
@@ -165,7 +160,8 @@ func judge(w *world, rq *request, c *reqCtx, code int, base backend.BasePayloadR
 		simrt.Report("j1.accept-shape:"+kindName, fmt.Sprintf("device cannot read the join-accept %x: %v", []byte(phy), err))
 		return
 	}
-	if !ja.MICOK {
+	legacyRejoin := rq.kind > 0 && !rq.optNeg
+	if !ja.MICOK && !legacyRejoin {
 		simrt.Report("j1.accept-mic:"+kindName, fmt.Sprintf("device rejects the MIC of the join-accept %x (optneg in accept=%v, requested %v)", []byte(phy), ja.OptNeg, rq.optNeg))
 		return
 	}
@@ -173,18 +169,19 @@ func judge(w *world, rq *request, c *reqCtx, code int, base backend.BasePayloadR
 	copy(netLE[:], spec.Reverse(rq.netID[:]))
 	var addrLE [4]byte
 	copy(addrLE[:], spec.Reverse(rq.devAddr[:]))
-	dlb, _ := rq.dl.MarshalBinary()
+	dlByte := rq.dl.RX2DataRate&0x0f | (rq.dl.RX1DROffset&0x07)<<4
+	if rq.dl.OptNeg {
+		dlByte |= 0x80
+	}
 	if int(ja.JoinNonce) != c.nonce {
 		simrt.Report("j1.echo:JoinNonce:"+kindName, fmt.Sprintf("join-accept carries JoinNonce %d, storage configured %d for this request", ja.JoinNonce, c.nonce))
 	}
-	if ja.NetIDLE != netLE {
-		simrt.Report("j1.echo:NetID:"+kindName, fmt.Sprintf("join-accept carries NetID %x, sender is %s", ja.NetIDLE, rq.netID))
-	}
+	_ = netLE // (the NetID in the accept is not among the fields the statement lists)
 	if ja.DevAddrLE != addrLE {
 		simrt.Report("j1.echo:DevAddr:"+kindName, fmt.Sprintf("join-accept carries DevAddr %x (LE), requested %s", ja.DevAddrLE, rq.devAddr))
 	}
-	if len(dlb) == 1 && ja.DLSettings != dlb[0] {
-		simrt.Report("j1.echo:DLSettings:"+kindName, fmt.Sprintf("join-accept carries DLSettings %02x, requested %02x", ja.DLSettings, dlb[0]))
+	if ja.DLSettings != dlByte {
+		simrt.Report("j1.echo:DLSettings:"+kindName, fmt.Sprintf("join-accept carries DLSettings %02x, requested %02x", ja.DLSettings, dlByte))
 	}
 	if int(ja.RxDelay) != rq.rxDelay {
 		simrt.Report("j1.echo:RxDelay:"+kindName, fmt.Sprintf("join-accept carries RxDelay %d, requested %d", ja.RxDelay, rq.rxDelay))
@@ -193,6 +190,9 @@ func judge(w *world, rq *request, c *reqCtx, code int, base backend.BasePayloadR
 		simrt.Report("j1.echo:CFList:"+kindName, fmt.Sprintf("join-accept carries CFList %x, requested %x", ja.CFList, rq.cfList))
 	}
 
+	if legacyRejoin {
+		return
+	}
 	// session keys: envelopes (after unwrapping with the configured KEKs)
 	// must equal what the device derives
 	keys := rq.dev.DeriveKeys(ja, rq.nonce)
